@@ -261,6 +261,9 @@ fn workloads(prop: &str, thorough: bool) -> Vec<Work> {
             exh(&mut w, exhaustive::Phase::Edits);
         }
         "C13" => {
+            // late failures that flip an early-skipped consumer while a cleanup offer is pending (C13-10)
+            w.push(chains(Plain, LateFail, 4, 10000 * k));
+            w.push(chains(Plain, EphFail, 4, 5000 * k));
             w.push(chains(Plain, Random, 8, 14000 * k));
             w.push(chains(Plain, ValidatedEph, 4, 10000 * k));
             w.push(chains(Plain, EphChain, 4, 8000 * k));
